@@ -786,6 +786,22 @@ class World:
             return VClass('rigid.Ty' if args[0].cls == 'rigid' else 'monoidal.Ty')
         if cls in ('monoidal.Ty', 'rigid.Ty', 'biclosed.Ty') and not args and not kwargs:
             return VTy(T.EMPTY)
+        if cls in ('monoidal.PRO', 'rigid.PRO') and len(args) <= 1 and not kwargs:
+            # assumed call-site contract of PRO.__init__: PRO(n), PRO(PRO(n)) is the type of n wires (all named 1, so only
+            # the length is modelled; the body multiplies a list by a symbolic integer, outside the engine)
+            ex.used.add('assumed: PRO(n) and PRO(PRO(n)) are the type of n wires named 1, a function of n alone, so PRO(a) @ PRO(b) == PRO(a + b) '
+                        '(monoidal.PRO.__init__ multiplies a list by a symbolic integer, outside the engine)')
+            if not args:
+                return VTy(T.EMPTY)
+            n = None
+            if isinstance(args[0], VTy):
+                n = z3.Length(args[0].t)
+            elif isinstance(args[0], VInt):
+                n = z3.If(args[0].t >= 0, args[0].t, 0)
+            if n is not None:
+                t = T.pro_of(n)
+                ex.assume(z3.Length(t) == n)
+                return VTy(t)
         if cls == 'rigid.Id':
             cls = 'monoidal.Id'        # same fields; the rigid class only upgrades (abstract Upgrade contract)
         init = cls + '.__init__'
@@ -1039,6 +1055,7 @@ SUPER = {
     ('biclosed.Curry', '__init__'): 'monoidal.Box.__init__',
     ('rigid.Cup', '__init__'): 'rigid.Box.__init__', ('rigid.Cap', '__init__'): 'rigid.Box.__init__',
     ('monoidal.Swap', '__init__'): 'monoidal.Box.__init__',
+    ('cartesian.Function', '__init__'): 'rigid.Box.__init__',
 }
 
 
@@ -1250,6 +1267,7 @@ BUILTINS = {
     'list_index': _list_index, 'all': _all_any(True), 'any': _all_any(False), 'getattr': _getattr,
     'min': _min_max(True), 'max': _min_max(False), 'sum': _sum, 'reversed': _reversed,
     'hasattr': lambda interp, obj, name: VBool(isinstance(obj, VOb) and getattr(name, 's', None) == 'z'),
+    'repr': lambda interp, obj: VVal(T.fresh('repr', T.ValS)),      # some text: an arbitrary opaque value (only ever stored as a name)
     'map': lambda interp, fn, lst: interp.ex.list_map(interp.world.as_sequence(interp, lst),
                                                      lambda x: interp.world.call(interp, fn, [x], {}, None), 'map'),
 }
